@@ -112,7 +112,7 @@ Definition known_inversion (classes : list string) (held l : nat) : bool :=
 
 (* callee expressions on lock paths that take no lock of these classes (hand-audited list) *)
 Definition lock_free_callees : list string :=
-  ["NewMultiPacketListener"; "NewMultiStreamListener"; "close"; "copy"; "delete"; "errors.Is"; "fmt.Errorf";
+  ["NewMultiPacketListener"; "NewMultiStreamListener"; "close"; "conn.Close"; "copy"; "delete"; "errors.Is"; "fmt.Errorf";
    "len"; "ln.AcceptStream"; "m.ln.Addr"; "m.pc.Close"; "m.pc.ReadFrom"; "make"; "net.ListenPacket";
    "net.ListenTCP"; "net.ResolveTCPAddr"; "t.ln.AcceptTCP"; "t.ln.Addr"; "t.ln.Close"].
 Definition callees_known (cs : list string) : bool :=
